@@ -129,9 +129,13 @@ def run(tier, seed, replay=None):
     hm = None
     try:
         if replay:
-            base = H.replay_case(sc, replay["base"])
+            kind = replay["signature_text"].split("|")[0].strip().replace("routing-", "")
             v = H.replay_case(sc, replay)
-            groups = [(replay["signature_text"].split("|")[0].strip().replace("routing-", ""), base, [v], [])]
+            if "base" in replay:
+                base = H.replay_case(sc, replay["base"])
+                groups = [(kind, base, [v], [l for l in (base.user_cfg or "").split("\n") if l])]
+            else:
+                groups = [(kind, v, [], [l for l in (v.user_cfg or "").split("\n") if l])]
         else:
             groups = routing_cases(sc, tier, rng)
         allc = [c for _, b, vs, _ in groups for c in [b] + vs]
